@@ -520,6 +520,16 @@ def _pick(items, j):
   raise OutOfSubset('symbolic index into a concrete sequence')
 
 
+def name_array(ex, arr, tag='arr'):
+  """Replaces a lambda-defined array by a named constant characterised pointwise, so
+  that quantified facts about its elements have a term to trigger on."""
+  named = ex.path.fresh_const(tag, arr.sort())
+  j = z3.Const('j!na', arr.sort().domain())
+  ex.path.assume(z3.ForAll([j], z3.Select(named, j) == z3.Select(arr, j),
+                           patterns=[z3.Select(named, j)]))
+  return named
+
+
 def _iter_to_list(ex, it, ek):
   if isinstance(it, list):
     if not it:
@@ -528,7 +538,7 @@ def _iter_to_list(ex, it, ek):
   j = z3.Int(ex.path.fresh_name('j!l'))
   w = it.at(j)
   ek = kind_of(w)
-  lst = VList(KList(ek), it.len, z3.Lambda([j], ek.box(w)))
+  lst = VList(KList(ek), it.len, name_array(ex, z3.Lambda([j], ek.box(w)), 'itl'))
   for a in ('keys', 'idx', 'dict'):
     if hasattr(it, a):
       setattr(lst, 'dict_' + a, getattr(it, a))
@@ -571,6 +581,11 @@ def call_value_method(ex, obj, name, args, kwargs, node):
 def _list_method(ex, obj, name, args, kwargs, node):
   if name == 'append':
     v = materialize(ex, args[0], obj.kind.elem)
+    if isinstance(v, VOpt) and not isinstance(obj.kind.elem, KOpt):
+      ex.path.oblige(f'{ex.contract.qual}/safety/appended_value_not_none#{node.lineno}',
+                     z3.Not(v.is_none))
+      ex.path.assume(z3.Not(v.is_none))
+      v = v.inner
     sym.escape(v)
     obj.append(v)
     return NONE
@@ -582,12 +597,13 @@ def _list_method(ex, obj, name, args, kwargs, node):
       for it in v.items:
         obj.append(it)
       return NONE
-    if isinstance(v, VList):
-      obj.extend(v)
-      return NONE
     from pyvc.exec import Iter
     if isinstance(v, Iter):
-      obj.extend(_iter_to_list(ex, v, obj.kind.elem))
+      v = _iter_to_list(ex, v, obj.kind.elem)
+    if isinstance(v, VList):
+      obj.extend(v)
+      obj.arr = name_array(ex, obj.arr, 'ext')
+      obj._wb()
       return NONE
   if name == 'pop':
     if not args:
